@@ -93,6 +93,10 @@ func ValidateResponseResult(result string) error {
 		return sdkerrors.Wrap(ErrInvalidResponseResult, "result missing")
 	}
 
+	if !utf8.ValidString(result) {
+		return sdkerrors.Wrap(ErrInvalidResponseResult, "result is not valid UTF-8")
+	}
+
 	if err := validateDocument([]byte(ResultSchema), result); err != nil {
 		return sdkerrors.Wrap(ErrInvalidResponseResult, err.Error())
 	}
